@@ -32,6 +32,12 @@ ERRS = [
     # an error raised by code generation with the directive's own token as location (no table in scope; where a table is
     # in scope the statement is valid and nothing is reported)
     ("text-without-table", ".text 'hello zq'", None, "node"),
+    # syntax errors whose offending token is a number that ends its line (a lone `0` included: the scanner looks behind it
+    # for a base prefix): reported on the statement's own line, at the token's column
+    ("stray-zero-eol", ".dw 1 0", 6, "parse"),
+    ("stray-zero-after-name", "counter_zq 0", 11, "parse"),
+    ("stray-zero-after-operand", "lda.b #0 0", 9, "parse"),
+    ("stray-number-eol", ".db 2 5", 6, "parse"),
 ]
 
 
@@ -133,9 +139,9 @@ def run(ctx):
                 # line means the report points at another statement
                 s.violate(inp, (fname, pos, stmt), rep[1:], "the reported location is not the statement that caused the error")
                 continue
-            if rep[1] != fname or rep[2] != pos or rep[4] != exp_line_text or (how == "scan" and rep[3] != col):
+            if rep[1] != fname or rep[2] != pos or rep[4] != exp_line_text or (how in ("scan", "parse") and rep[3] != col):
                 # lexical errors raised by an *earlier* line of the same kind are impossible in a valid base program
-                s.violate(inp, (fname, pos, col if how == "scan" else None, exp_line_text), rep[1:], "reported file / line / column / quoted line differ from the erroneous statement")
+                s.violate(inp, (fname, pos, col if how in ("scan", "parse") else None, exp_line_text), rep[1:], "reported file / line / column / quoted line differ from the erroneous statement")
         s.sample({"src": progs[0]["src"][:300], "meta": str(progs[0]["meta"])})
 
         # one Program object used for two sources: the second source's errors are located in the second source
@@ -175,8 +181,8 @@ def run(ctx):
                 s2.violate(inp, "an error located in second.s", "assembled", "the erroneous second source is assembled")
             elif rep[0] != how:
                 s2.violate(inp, (how, "second.s", pos, stmt), rep, "the second source's error is reported as another kind of failure (or not located)")
-            elif rep[1] != "second.s" or rep[2] != pos or rep[4] != stmt or (how == "scan" and rep[3] != col):
-                s2.violate(inp, ("second.s", pos, col if how == "scan" else None, stmt), rep[1:], "reported file / line / column / quoted line differ from the erroneous statement of the second source")
+            elif rep[1] != "second.s" or rep[2] != pos or rep[4] != stmt or (how in ("scan", "parse") and rep[3] != col):
+                s2.violate(inp, ("second.s", pos, col if how in ("scan", "parse") else None, stmt), rep[1:], "reported file / line / column / quoted line differ from the erroneous statement of the second source")
         # two sources of the same name in one process: an error of the first, raised and rendered after the second was
         # scanned under that name, still quotes the first source's own line
         s2b = core.Stream("S4-same-name-sources", "two different sources given the same file name in one process (two Programs): the first is parsed, then the second is parsed, then the first is resolved and emitted and fails on a statement that can only fail then (undefined name, .text without table): the NodeError, rendered after the second scan, names the line of the first source and quotes its text")
@@ -224,7 +230,7 @@ def run(ctx):
         import os
         from props import frontends
         for i in range(20 if tier == "quick" else 200):
-            kind, stmt, col, how = rng.choice([e for e in ERRS if e[0] != "unterminated-string-backslash" and "\n" not in e[1]])
+            kind, stmt, col, how = rng.choice([e for e in ERRS if e[0] != "unterminated-string-backslash" and "\n" not in e[1] and e[3] != "parse"])
             lead = [rng.choice(["", "", "   ", "\t"]) for _ in range(rng.randrange(0, 4))]
             pre = lead + ["*=0x038000"] + ["nop"] * rng.randrange(0, 4)
             text = "\n".join(pre + [stmt, "rts"]) + rng.choice(["\n", "", "\n\n", "  \n"])
@@ -271,8 +277,8 @@ def run(ctx):
                 s3.violate(inp, "a located error", "status 0", "the erroneous file is reported as assembled")
             elif rep is None or rep[0] != how:
                 s3.violate(inp, (how, name, pos, stmt), rep, "the file API does not locate the error (or reports another kind)")
-            elif not str(rep[1]).endswith(name) or rep[2] != pos or rep[4] != stmt or (how == "scan" and rep[3] != col):
-                s3.violate(inp, (name, pos, col if how == "scan" else None, stmt), rep[1:], "file / line / column / quoted text reported through the file API differ from the statement in the file")
+            elif not str(rep[1]).endswith(name) or rep[2] != pos or rep[4] != stmt or (how in ("scan", "parse") and rep[3] != col):
+                s3.violate(inp, (name, pos, col if how in ("scan", "parse") else None, stmt), rep[1:], "file / line / column / quoted text reported through the file API differ from the statement in the file")
         # several included files with identical text: an error is located in the file the failing statement came from
         s5 = core.Stream("S4-identical-includes", "two or three included files with byte-identical text (copies at different paths), one of them included where a symbol it uses is defined and another where it is not (or the second copy made erroneous afterwards, in a second assembly of the same process): the reported file is the one the failing statement came from, with its line and text")
         for i in range(10 if tier == "quick" else 80):
@@ -302,7 +308,7 @@ def run(ctx):
         # the command line with -D definitions: locations still refer to the lines of the user's file
         s4 = core.Stream("S4-cli-defines", "an erroneous statement at a known line of a file assembled by the x816 command line with 0..3 -D NAME=VALUE definitions (used or unused by the program), both output formats: the reported file, zero-based line, column and quoted text are those of the statement in the user's file, whatever was defined on the command line")
         for i in range(10 if tier == "quick" else 120):
-            kind, stmt, col, how = rng.choice([e for e in ERRS if e[0] not in ("unterminated-string-backslash",) and "\n" not in e[1]])
+            kind, stmt, col, how = rng.choice([e for e in ERRS if e[0] not in ("unterminated-string-backslash",) and "\n" not in e[1] and e[3] != "parse"])
             ndef = rng.choice([0, 1, 2, 3, 3])
             defs = [(f"dz{k}", rng.randrange(0, 200)) for k in range(ndef)]
             pre = ["; c"] * rng.randrange(0, 4) + ["*=0x038000"] + [f".db dz{k}" for k in range(ndef) if rng.random() < 0.6] + ["nop"] * rng.randrange(0, 4)
@@ -324,8 +330,8 @@ def run(ctx):
                 s4.violate(inp, "a located error", rep_, "the erroneous file is reported as assembled")
             elif rep is None or rep[0] != how:
                 s4.violate(inp, (how, name, pos, stmt), (rep, err[-200:]), "the command line does not locate the error (or reports another kind)")
-            elif not str(rep[1]).endswith(name) or rep[2] != pos or rep[4] != stmt or (how == "scan" and rep[3] != col):
-                s4.violate(inp, (name, pos, col if how == "scan" else None, stmt), rep[1:], "file / line / column / quoted text reported by the command line differ from the statement in the user's file")
+            elif not str(rep[1]).endswith(name) or rep[2] != pos or rep[4] != stmt or (how in ("scan", "parse") and rep[3] != col):
+                s4.violate(inp, (name, pos, col if how in ("scan", "parse") else None, stmt), rep[1:], "file / line / column / quoted text reported by the command line differ from the statement in the user's file")
         s4.sample({"command": "x816 cli_zq_0.s -D dz0=1 dz1=2"})
         return [s, s2, s2b, s3, s4, s5]
     finally:
